@@ -39,6 +39,12 @@ package handler
 //@   let admitted = ret(ParseToken, 1) == nil && tok.Valid && typeis(tok.Claims, jwt.MapClaims)
 //@   loop 1 iteration-ensures [registered-hidden] (k == "aud" || k == "exp" || k == "jti" || k == "iat" || k == "iss" || k == "nbf" || k == "sub") ==> calls(WithValue) == 0
 //@   loop 1 iteration-ensures [others-visible] !(k == "aud" || k == "exp" || k == "jti" || k == "iat" || k == "iss" || k == "nbf" || k == "sub") ==> calls(context.WithValue) == 1 && arg(context.WithValue, 1) == k && arg(context.WithValue, 2) == v && ctx == ret(context.WithValue)
+// every visible claim is added on top of the context that already carries the earlier ones (so all of them reach
+// the handler), the chain starts at the request's context, and the handler gets the request with that context
+//@   loop 1 iteration-ensures [claims-accumulate] calls(context.WithValue) == 1 ==> arg(context.WithValue, 0) == at_head(ctx) && ctx == ret(context.WithValue)
+//@   loop 1 iteration-ensures [hidden-claims-leave-the-context] calls(context.WithValue) == 0 ==> ctx == at_head(ctx)
+//@   loop 1 entry [chain-starts-at-the-request-context] ctx == ret(Context)
+//@   ensures [handler-sees-the-accumulated-context] admitted ==> arg(next.ServeHTTP, 1) == ret(WithContext) && arg(WithContext, 1) == local(ctx) && arg(WithContext, 0) == r
 //@   ensures [rejected] !admitted ==> calls(next.ServeHTTP) == 0 && calls(unauthorized) == 1
 //@   ensures [admitted] admitted ==> calls(next.ServeHTTP) == 1 && calls(unauthorized) == 0
 //@   ensures [parse-args] calls(ParseToken) == 1 && arg(ParseToken, 1) == r && arg(ParseToken, 2) == secret && arg(ParseToken, 3) == authOpts.PrevSecret
@@ -52,7 +58,7 @@ package handler
 //@   opaque checkWriteHeaderCode, relevantCaller, Errorf
 //@   requires tw != nil
 //@   ensures [refused-after-timeout] old(tw.timedOut) ==> result0 == 0 && result1 == http.ErrHandlerTimeout && calls(Write) == 0 && tw.wroteHeader == old(tw.wroteHeader) && tw.code == old(tw.code)
-//@   ensures [buffered] !old(tw.timedOut) ==> calls(tw.wbuf.Write) == 1 && arg(tw.wbuf.Write, 1) == p && result0 == ret(tw.wbuf.Write, 0)
+//@   ensures [buffered] !old(tw.timedOut) ==> calls(tw.wbuf.Write) == 1 && arg(tw.wbuf.Write, 1) == p && result0 == ret(tw.wbuf.Write, 0) && arg(Write, 0) == &tw.wbuf
 //@   ensures [implicit-200-committed] !old(tw.timedOut) && !old(tw.wroteHeader) ==> tw.wroteHeader && tw.code == 200
 //@   ensures [first-status-wins] !old(tw.timedOut) && old(tw.wroteHeader) ==> tw.code == old(tw.code) && tw.wroteHeader
 //@   ensures [never-the-real-writer] calls(tw.w.Write) == 0 && calls(tw.w.WriteHeader) == 0 && tw.w == old(tw.w)
@@ -98,6 +104,9 @@ package handler
 // (what the handler recorded is read under tw.mu, after the handler goroutine's writes have become visible)
 //@   let locked = on("lock", tw.mu)
 //@   ensures [finished-first-flushes-buffer] finished ==> calls(w.WriteHeader) == 1 && arg(w.WriteHeader, 0) == ite(at(locked, tw.wroteHeader), at(locked, tw.code), 200) && calls(w.Write) == 1 && arg(w.Write, 0) == ret(Bytes) && before(WriteHeader, Write) && calls(ErrorCtx) == 0 && tw.timedOut == at(locked, tw.timedOut) && before(locked, WriteHeader)
+// the body that is flushed comes out of the buffer embedded in the writer made for this very request (no buffer
+// shared with, or inherited from, another request)
+//@   ensures [flushed-buffer-is-this-requests-own] finished ==> fresh(tw) && arg(Bytes, 0) == &tw.wbuf
 //@   ensures [timeout-discards-buffer] calls(ErrorCtx) == 1 ==> tw.timedOut && calls(Bytes) == 0 && calls(w.Write) == 0 && calls(w.WriteHeader) == 0 && arg(ErrorCtx, 1) == w && before(on("lock", tw.mu), ErrorCtx)
 // the handler writes its headers into a map of the buffering writer's own: the real writer's header map is not
 // even looked at unless the handler finished in time (so nothing the handler set can accompany a timeout response)
